@@ -75,6 +75,9 @@ def templates():
     add('named-aliased', 2, ['E', 'X'], ['1', '+'], lambda n: [
         gs.Rule(n['E'], A(S(('named', 'l', C(n['X'])), T('+'), ('named', 'r', C('t'))), C('t'))),
         gs.Rule(n['X'], C(n['E'])), gs.Rule('t', ONE)])
+    # the rule's value is a plain list (override over a group): every seed must stay one element of the next
+    add('override-group', 2, ['E'], ['1', '+'], lambda n: [
+        gs.Rule(n['E'], A(('ovr', ('grp', S(C(n['E']), T('+'), C('t')))), C('t'))), gs.Rule('t', ONE)])
     add('left-and-right', 2, ['E'], ['1', '+'], lambda n: [
         gs.Rule(n['E'], A(S(C(n['E']), T('+'), C(n['E'])), C('t'))), gs.Rule('t', ONE)])
     add('right-only', 2, ['E'], ['1', '^'], lambda n: [
